@@ -76,6 +76,9 @@ def run(ctx):
     override_campaign(ctx)
     # the deserializer's cursor machine: nested-call pointers observed by a spy, replayed through WireMachineDes (pointer clause decides here)
     desmachine.campaign(ctx, PROP, decide_ptr=True)
+    # the bounded fetches those routines call: pointer watch on the C support library (BitPrims!PtrInside)
+    from . import c14
+    c14.pointer_watch(ctx, PROP)
     rej = camp.judge()
     codec.report(camp, ctx, rej, PROP, extra_owner=OWN,
                  also=lambda clause, info: clause in ("ser.guard", "ser.bad_len", "ser.bad_tag", "ser.too_small") or (clause.startswith("des.") and info.get("prior")))
@@ -190,5 +193,9 @@ def _first_line(s):
 def replay(ctx, case):
     if case.get("kind") == "desmachine":
         desmachine.replay(ctx, case, PROP)
+        return
+    if case.get("kind") == "primwatch":
+        from . import c14
+        c14.replay_pointer_watch(ctx, case, PROP)
         return
     codec.replay_generic(ctx, case, PROP)
